@@ -88,7 +88,7 @@ def classes_of(case):
     for t in case["terms"]:
         for a in t:
             if a not in ("f", "g", "h", "s", "x", "z", "w"):
-                c.append("atom:" + a.split("(")[0].replace("{w + 1}", "brace"))
+                c.append("atom:" + a.split("(")[0].replace("{w + 1}", "brace") + ("(ref)" if "'" in a else ""))
     for v, k in (case.get("catkinds") or {}).items():
         c.append("dtype:" + k)
     return sorted(set(c))
@@ -204,9 +204,9 @@ def _small_worker(ctx, arg):
 
 # ---- (c) random mixed families ------------------------------------------------------------------------
 ATOM_CHOICES = {
-    "f": ["f", "f", "C(f)", "T(f)", "S(f)"],
-    "g": ["g", "g", "S(g)", "T(g)", "C(g, Treatment)"],
-    "h": ["h", "h", "C(h, Sum)", "T(h)", "S(h)"],
+    "f": ["f", "f", "C(f)", "T(f)", "S(f)", "T(f, 'a')", "C(f, Treatment('a'))"],
+    "g": ["g", "g", "S(g)", "T(g)", "C(g, Treatment)", "S(g, 'g3')", "T(g, 'g1')"],
+    "h": ["h", "h", "C(h, Sum)", "T(h)", "S(h)", "C(h, Sum('lo'))", "T(h, 'mid')"],
     "k": ["C(k)", "C(k, Sum)"],
     "x": ["x", "x", "scale(x)", "center(x)", "poly(x, 2)", "np.exp(x)", "bs(x, df=4)"],
     "z": ["z", "z", "center(z)", "scale(z)", "bs(z, df=3)", "I(z ** 2)", "poly(z, 3)"],
